@@ -202,6 +202,13 @@ Theorem claim_early_by_less_than_two_epochs : forall b0 b d th h,
 Proof. exact (fun b0 b d th h => claim_lower_bound_in_epoch b0 b d th h (E_pos_of_params params_depths_at_least_one_epoch)). Qed.
 Print Assumptions claim_early_by_less_than_two_epochs.
 
+(* for Process-made rewards the epoch guard of a claim is implied by the unlock guard (depth >= epoch): a mutation of
+   the epoch comparison is only visible on inputs Process never produces (the harness corpus has them) *)
+Theorem claim_unlock_guard_implies_epoch_guard : forall b d h, E <= d ->
+  (b + d) - (b + d) mod E <= h -> b / E + 1 < h / E + 1.
+Proof. exact (fun b d h => unlock_guard_implies_epoch_guard b d h (E_pos_of_params params_depths_at_least_one_epoch)). Qed.
+Print Assumptions claim_unlock_guard_implies_epoch_guard.
+
 (* ---- RedeemLockedQuai: plain locked rewards and Qi->Quai conversions ---- *)
 
 (* redeem_exactly_once_at_unlock: an ETX in canonical block b (b >= 1) that RedeemLockedQuai can credit at all
